@@ -90,6 +90,8 @@ def run_job(job, rec):
         nontrivial = shape != "square" or spec[0] in ("SUM", "CP") or mean_name != "Constant"
         rec.case(digest(A, y, y_err, pos, desc, theta), nontrivial=nontrivial)
         rec.count("cases:" + shape)
+        if nd == 1:
+            rec.count("cases:single_datum")
         if c < 2:
             rec.sample({**rec.context, "theta": theta, "y_err_head": y_err[:3]})
 
@@ -230,6 +232,17 @@ def run_job(job, rec):
         rec.count("gradient_components_checked", theta.size)
         rec.check(g.shape == gn.shape and bool(np.all(np.abs(g - gn) <= gtol)), "evidence-gradient",
                   lambda: f"{desc}/{mean_name}: evidence gradient {g} != numerical {gn}", rec.context)
+        # the same call again (and again): nothing an earlier call left behind may change the answer
+        for rep in range(2):
+            eg2 = guarded(inv.marginal_likelihood_gradient, theta)
+            ev2_ = guarded(inv.marginal_likelihood, theta)
+            po2_ = guarded(inv.calculate_posterior, theta)
+            rec.count("repeated_calls")
+            okr = not any(isinstance(v, Raised) for v in (eg2, ev2_, po2_)) and float(eg2[0]) == float(eg[0]) and np.array_equal(np.asarray(eg2[1], float), g) \
+                and float(ev2_) == float(ev) and np.array_equal(np.asarray(po2_[0], float), pm) and np.array_equal(np.asarray(po2_[1], float), pc)
+            rec.check(okr, "repeated-call-differs",
+                      lambda: f"{desc} [{shape} {nd}x{npar}]: call {rep + 2} of marginal_likelihood_gradient / marginal_likelihood / calculate_posterior at the same hyper-parameters "
+                              f"differs from the first ({eg2!r} vs {eg!r})", rec.context)
 
     # ---- two inverters relying on the default prior classes, built one after the other; the first is used afterwards
     for c in range(max(2, job["n_cases"] // 6)):
